@@ -24,15 +24,18 @@ Record cfg := {
 Definition enc_text (c : cfg) (s : list Z) : exc (list Z) :=
   match (match c_enc c with EncAscii => ascii_encode s | EncUtf8 => utf8_encode s end) with
   | Some b => Ok b | None => Raise UnicodeEncodeError end.
+(* Client.check_key: check_key_helper, then an empty prefixed key is rejected *)
 Definition check_key (c : cfg) (prefix : list Z) (k : dyn) : exc (list Z) :=
   match k with
   | DStr _ | DBytes _ => match key_spec k (c_unicode c) prefix with
+                         | Ok (DBytes []) => Raise MemcacheIllegalInputError
                          | Ok (DBytes w) => Ok w | Ok _ => Raise TypeError | Raise e => Raise e end
   | _ => Raise TypeError            (* outside the modelled domain (non-str/bytes keys) *)
   end.
-(* _check_integer: isinstance(value, int) else MemcacheIllegalInputError; str(value).encode(encoding) *)
+(* _check_integer: isinstance(value, int) else MemcacheIllegalInputError; rendered by value: str(int(value)).encode(encoding) *)
+Definition int_value (v : dyn) : option Z := match v with DInt z => Some z | DBool b => Some (bool_Z b) | _ => None end.
 Definition check_integer (c : cfg) (v : dyn) : exc (list Z) :=
-  if py_isinstance_int v then bind (py_str v) (enc_text c) else Raise MemcacheIllegalInputError.
+  match int_value v with Some z => enc_text c (str_of_Z z) | None => Raise MemcacheIllegalInputError end.
 (* _check_cas *)
 Definition check_cas (c : cfg) (v : dyn) : exc (list Z) :=
   bind (match v with
@@ -256,7 +259,7 @@ Definition store_cmd (c : cfg) (name : list Z) (values : list (dyn * dyn)) (expi
         bind (check_key c (c_prefix c) k) (fun key =>
         bind (serde_serialize c d) (fun sd =>
         let '(data, dflags) := sd in
-        bind (match flags with DNone => Ok (str_of_Z dflags) | f => bind (py_str f) (enc_text c) end) (fun fb =>
+        bind (check_integer c (match flags with DNone => DInt dflags | f => f end)) (fun fb =>
         bind (data_bytes c data) (fun db =>
         bind (go t) (fun rest =>
         Ok (name ++ L_sp ++ key ++ L_sp ++ fb ++ L_sp ++ eb ++ L_sp ++ str_of_Z (zlen db) ++ extra ++ L_crlf ++ db ++ L_crlf ++ rest))))))
